@@ -903,3 +903,18 @@ func init() {
 		Edit{"types/types.go", "\t\tcase *V2FileContractRenewal:\n\t\t\trenewal := *res\n\t\t\tc.FileContractResolutions[i].Resolution = &renewal\n\t\t}\n\t}\n", "\t\tcase *V2FileContractRenewal:\n\t\t\trenewal := *res\n\t\t\tc.FileContractResolutions[i].Resolution = &renewal\n\t\tcase *V2FileContractExpiration:\n\t\t\tbreak copyResolutions\n\t\t}\n\t}\n"},
 		Edit{"types/types.go", "\tfor i := range c.FileContractResolutions {\n\t\tc.FileContractResolutions[i].Parent = c.FileContractResolutions[i].Parent.Copy()\n", "copyResolutions:\n\tfor i := range c.FileContractResolutions {\n\t\tc.FileContractResolutions[i].Parent = c.FileContractResolutions[i].Parent.Copy()\n"})
 }
+
+func init() {
+	// ---- round 7 rules ----
+	v := "consensus/validation.go"
+	mut("C01", "v2 siafund outputs bounded by their wrapping sum", true, "siafund-bound|v2",
+		Edit{v, "\tfor _, sfo := range txn.SiafundOutputs {\n\t\toverflow = overflow || sfo.Value > ms.base.SiafundCount()\n\t}\n\tfor _, fc := range txn.FileContracts {\n\t\taddContract(fc)", "\tvar sfSum uint64\n\tfor _, sfo := range txn.SiafundOutputs {\n\t\tsfSum += sfo.Value\n\t}\n\toverflow = overflow || sfSum > ms.base.SiafundCount()\n\tfor _, fc := range txn.FileContracts {\n\t\taddContract(fc)"})
+	mut("C02", "v2 transactions validated against a second MidState", true, "one-midstate",
+		Edit{v, "\tfor i, txn := range b.V2Transactions() {\n\t\tif err := ValidateV2Transaction(ms, txn); err != nil {", "\tms = NewMidState(s)\n\tfor i, txn := range b.V2Transactions() {\n\t\tif err := ValidateV2Transaction(ms, txn); err != nil {"})
+	mut("C06", "revert numbers the created leaves from the update's (unset) leaf count", true, "revert-leaf-index",
+		Edit{"consensus/merkle.go", "\teru.updated = updateLeaves(updated)\n\teru.numLeaves = acc.NumLeaves\n\tfor i := range added {\n\t\tadded[i].LeafIndex = acc.NumLeaves + uint64(i)\n\t}\n", "\teru.updated = updateLeaves(updated)\n\tfor i := range added {\n\t\tadded[i].LeafIndex = eru.numLeaves + uint64(i)\n\t}\n\teru.numLeaves = acc.NumLeaves\n"})
+	mut("C17", "v3 PayByContract credits the host's valid output twice (through pointer locals)", true, "v3-pay",
+		Edit{"rhp/v3/rhp.go", "\trev.MissedProofOutputs[types.HostContractIndex].Value = rev.MissedProofOutputs[types.HostContractIndex].Value.Add(amount)\n", "\tmh := &rev.ValidProofOutputs[types.HostContractIndex]\n\tmh.Value = mh.Value.Add(amount)\n"})
+	mut("C17", "(benign) v3 PayByContract through a pointer local", false, "",
+		Edit{"rhp/v3/rhp.go", "\trev.MissedProofOutputs[types.HostContractIndex].Value = rev.MissedProofOutputs[types.HostContractIndex].Value.Add(amount)\n", "\tmh := &rev.MissedProofOutputs[types.HostContractIndex]\n\tmh.Value = mh.Value.Add(amount)\n"})
+}
